@@ -97,6 +97,14 @@ def run(res, replay=None):
             for gi, ts in enumerate(gen_grids(rng, spec)):
                 cases.append({'spec': spec, 'ts': ts, 'container': 'array', 'entry': 'cdf'})
                 cases.append({'spec': spec, 'ts': ts, 'container': 'array', 'entry': rng.choice(['pdf', 'acc1', 'sfs1', 'acc2', 'tbl1'])})
+    if not replay:
+        # designed: late colonisation - every sample in the first population, no migration before time 1, migration afterwards; the
+        # marginal of the second population is exactly 0 on [0, 1] and rises later (several times inside the plateau, several after)
+        late = {'n_items': [['a', 3], ['b', 0]], 'model': {'kind': 'kingman'}, 'pop_sizes': {'a': {'0.0': 2.0}, 'b': {'0.0': 1.0}},
+                'migration_rates': {'a>b': {'0.0': 0.0, '1.0': 1.0}, 'b>a': {'0.0': 0.0, '1.0': 0.5}}}
+        for path in ("tree_height.demes['b']", "total_branch_length.demes['b']"):
+            for ts in ([0.4, 0.8, 1.5, 3.0], [3.0, 0.25, 1.5, 0.5, 0.75, 2.0], [1.5, 0.5, 0.75]):
+                cases.append({'spec': late, 'ts': ts, 'container': 'list', 'entry': 'deme1', 'dist_path': path})
     # implementation
     chunks = [cases[i::C.NCPU] for i in range(C.NCPU)]
     chunks = [c for c in chunks if c]
